@@ -10,6 +10,7 @@ Record rq := mkRq {
 }.
 Record case := mkCase {
   res_files : jmap; res_primary : option journal; res_exists : bool;   (* the resolved journal the server consults *)
+  primary_path : N;                                                    (* the file its primary was parsed from *)
   current : N; cur_journal : journal;                                  (* the open document (current text) *)
   scope : jmap;                      (* what the property names: current text + every file of its tree / workspace, own paths *)
   has_root : bool; edited : bool (* the open document was changed after it was opened *); reqs : list rq }.
@@ -20,7 +21,7 @@ Definition loc_full_eqb (a b : loc) : bool := (l_path a =? l_path b)%N && prange
 Definition model_refs (c : case) (r : rq) (incl : bool) : list loc :=
   match find_target (j_txs (cur_journal c)) (r_pl r) (r_pc r) with
   | None => []
-  | Some (k, name) => find_references k name incl (all_journals (res_files c) (res_primary c) (res_exists c) (current c) (cur_journal c))
+  | Some (k, name) => find_references k name incl (all_journals (res_files c) (res_primary c) (res_exists c) (primary_path c) (current c) (cur_journal c))
   end.
 
 Definition tie_rq (c : case) (r : rq) : bool :=
@@ -49,22 +50,9 @@ Definition oracle_rq (c : case) (r : rq) : bool :=
   end.
 Definition oracle_ok (c : case) : bool := forallb (oracle_rq c) (reqs c).
 
-(* class 3: no workspace root and the document was edited: the per-document resolved journal comes from the
-   second background load, which the shared loader serves from its cache without nested includes (C11) *)
-(* class 1: workspace mode and the request comes from a file other than the root journal
-   (the root's AST is filed under the requesting file's path); class 2: the symbol has a
-   directive declaration in scope (its name range has no end: rename edits are invalid) *)
-Definition has_decl (c : case) (r : rq) : bool :=
-  match find_target (j_txs (cur_journal c)) (r_pl r) (r_pc r) with
-  | Some (KAccount, name) => existsb (fun pj => existsb (fun d => match d with DAccount n _ _ _ _ _ => beq n name | _ => false end) (j_dirs (snd pj))) (scope c)
-  | Some (KCommodity, name) => existsb (fun pj => existsb (fun d => match d with DCommodity cm _ _ _ _ => beq (c_sym cm) name | _ => false end) (j_dirs (snd pj))) (scope c)
-  | _ => false
-  end.
-Definition known (c : case) : N :=
-  if has_root c && negb (current c =? 3)%N then 1%N   (* file 3 = main.journal, the root *)
-  else if negb (has_root c) && edited c &&
-          negb (forallb (fun r => keys_same_set (map (start_key KAccount) (o_refs r)) (map (start_key KAccount) (model_refs c r (r_incl r)))) (reqs c) &&
-                forallb (fun r => oracle_rq c r || has_decl c r) (reqs c)) then 3%N
-  else if forallb (fun r => oracle_rq c r || has_decl c r) (reqs c) then 2%N else 0%N.
+(* no recorded finding is left for C09.  Repaired in /repo: 1 (request from an included file in
+   workspace mode, dcc8365: getResolvedAround), 2 (directive name range without an end, 46ef8ab),
+   3 (cache hit without nested includes, 01b2939). *)
+Definition known (c : case) : N := 0%N.
 
 Definition judge_all := judge_with tie_ok oracle_ok known.
